@@ -446,10 +446,20 @@ class Scheduler:
 
         writers = self.bytecode_codes
 
+        last_line = {}      # id(frame) -> line of the last line event taken in that frame
+
         def local(frame, event, arg):
             if event == "line":
-                self.point(tid, frame)
+                # CPython 3.12 repeats the line event of a line when control comes back into it from a call it made
+                # the first time that code runs in the process (before the call site is specialised), and not later:
+                # consecutive events for one line of one frame count once, so that a run does not depend on what the
+                # process executed before
+                key = id(frame)
+                if last_line.get(key) != frame.f_lineno:
+                    last_line[key] = frame.f_lineno
+                    self.point(tid, frame)
             elif event == "return":
+                last_line.pop(id(frame), None)
                 if frame.f_code in anchors:
                     self.anchor_depth[tid] -= 1
                     if frame.f_code in writers:
